@@ -47,9 +47,9 @@ def alphabet(tier: str, variant: str = "full") -> Tuple[List[List[tuple]], List[
         steps += [9999, 10001, 1125000, 3375000, 4499999]
     if variant == "short-steps":
         steps = [1, 1000, 1001, 10000, 1125001]
-    ops = [("start", "a"), ("cancel", "a")]
+    ops = [("start", "a"), ("cancel", "a"), ("start", "ab")]
     if tier != "quick":
-        ops += [("start", "ab"), ("cancel", "ab")]
+        ops += [("cancel", "ab")]
     return d, steps, ops
 
 
